@@ -33,7 +33,7 @@ def main():
         stable = {t for t in stable if t.split("::")[0].rsplit(".", 1)[0] in mods}
     res = run(d, n if not only else 1, only)
     bad = sorted(t for t in stable if not res.get(t, False))
-    for _retry in range(2):   # re-run the failing files serially (xdist interference, sampling-based flaky tests)
+    for _retry in range(5):   # re-run the failing files serially (xdist interference, sampling-based flaky tests)
         if not bad:
             break
         files = sorted({"/".join(t.split("::")[0].split(".")[:-1]) + ".py" for t in bad})
